@@ -7,7 +7,9 @@ A case is {"k": "expr", "cfg": c, "prog": [postfix tokens]}; tokens:
   sample=<rat>  pow=<int>  un=<name>  bin=<add|sub|mul|div>  fb
   series=<n> parallel=<n> append=<n> combine=<n> ic=<n>=<kw>
 
-Two streams:
+Streams:
+  * `block_cells`: exhaustive -- `append(a, b)[0, 0] <op> c` for every ordered triple of timebases and six
+    class patterns (blocks of MIMO systems re-created by `__getitem__`, then combined onward);
   * `nary3_cells`: exhaustive — every ordered triple of timebases from {None, 0, True, 0.1, 0.25} for
     series / parallel / append / interconnect / combine_tf over several class patterns (the model's
     left-to-right fold of `common_timebase` against the real n-ary functions);
@@ -92,6 +94,32 @@ def nary3_cells(rng, full=True):
     return cells
 
 
+def block_cells(tier):
+    """history class "a block of a MIMO system, combined onward": `append(a, b)[0, 0] <op> c` for every
+    ordered triple of the five timebases and several class patterns (MIMO FRD / StateSpace /
+    TransferFunction built by append, the block re-created by `__getitem__`, then `*` / `+` with a third
+    system), under the `default_dt` values in rotation (quick) or all of them (thorough): a timebase
+    `None` must come out of the indexing as `None` whatever `default_dt` is, otherwise the last
+    operation returns / raises differently"""
+    B = _b()
+    toks = _kwtoks()
+    pats = [("frd", "frd", "frd", "mul"), ("frd", "ss", "frd", "add"), ("frd", "frd", "ss", "mul"),
+            ("ss", "ss", "tf", "add"), ("tf", "tf", "ss", "mul"), ("ss", "tf", "frd", "mul")]
+    cells = []
+    i = 0
+    for pat in pats:
+        for a in toks:
+            for b in toks:
+                for c in toks:
+                    prog = ["%s:0:%s" % (pat[0], a), "%s:0:%s" % (pat[1], b), "append=2", "un=getitem",
+                            "%s:0:%s" % (pat[2], c), "bin=" + pat[3]]
+                    cfgs = B.CFGS if tier != "quick" else [B.CFGS[i % len(B.CFGS)]]
+                    i += 1
+                    for cfg in cfgs:
+                        cells.append({"k": "expr", "cfg": cfg, "prog": prog})
+    return cells
+
+
 def _bincls(a, b, div=False):
     """class of `a op b` (steering only; mirrors `binResult` / `divResult`)"""
     if a is None or b is None or (a == "const" and b == "const"):
@@ -170,6 +198,8 @@ class Gen:
             ops += ["getitem"]
         if c in ("ss", "tf"):
             ops += ["toSS", "toTF", "toFRD"]
+        if c == "frd":
+            ops += ["toFRD"]                  # frd(F): the one-argument copy constructor
         if c == "ss":
             ops += ["toNL", "lin"]
         if c in ("nl", "ic") and "fb" not in x["prog"]:
@@ -277,7 +307,14 @@ class Gen:
         """append / combine_tf: a MIMO result"""
         rng = self.rng
         n = rng.randint(2, 3)
-        if rng.random() < 0.5:
+        if self.fam == "frd" and rng.random() < 0.4:
+            # a MIMO FRD (append of FRD leaves, possibly a linear system after the first): its blocks are
+            # reached by indexing, which re-creates the FRD with the timebase as a positional argument
+            xs = [self.leaf("frd", pool)]
+            for _ in range(n - 1):
+                xs.append(self.leaf(rng.choice(["frd", "frd", "ss", "tf"]), pool))
+            fn, c = "append", "frd"
+        elif rng.random() < 0.5:
             xs = [self.lin_child(depth - 1, pool)]
             for _ in range(n - 1):
                 xs.append(self.const() if rng.random() < 0.12 else self.lin_child(depth - 1, pool))
@@ -385,6 +422,7 @@ def cells(fam, rng, tier):
     out += [{"k": "expr", "cfg": cfg, "prog": ["sumjunc", "un=" + op]} for cfg in B.CFGS
             for op in ("neg", "copy", "rename")]
     out += nary3_cells(rng)
+    out += block_cells(tier)
     out += near_cells()
     out += rnd_cells(rng, 1500 if tier == "quick" else 8000)
     return out
@@ -394,6 +432,7 @@ def corpus():
     return [
         {"k": "expr", "cfg": "Q0", "prog": ["ss:0:N", "tf:0:Q" + T01, "ss:0:T", "series=3"]},
         {"k": "expr", "cfg": "Q0", "prog": ["tf:0:Q1/4", "pow=0"]},
+        {"k": "expr", "cfg": "T", "prog": ["frd:0:N", "frd:0:N", "append=2", "un=getitem", "frd:0:Q0", "bin=mul"]},
         {"k": "expr", "cfg": "Q0", "prog": ["ss:0:N", "tf:0:Q0", "bin=mul", "sample=1/2", "ss:0:T", "fb", "pow=2"]},
     ]
 
